@@ -457,9 +457,11 @@ class GaussianEuclideanMetricSystem(EuclideanMetricSystem):
     def dh2_dmom(self, state: ChainState) -> ArrayLike:
         return self.metric.inv @ state.mom
 
-    @cache_in_state("mom")
     def dh2_dpos(self, state: ChainState) -> ArrayLike:
-        return state.pos
+        return state.pos.copy()
+
+    def dh_dpos(self, state: ChainState) -> ArrayLike:
+        return self.dh1_dpos(state) + self.dh2_dpos(state)
 
     def h2_flow(self, state: ChainState, dt: ScalarLike) -> None:
         omega = 1.0 / self.metric.eigval**0.5
